@@ -8,6 +8,13 @@
 (* preceded the offending one (that is what the code does; the property does not forbid   *)
 (* it).  Construct/Copy/Pickle replace the object under test by the new object, so the    *)
 (* remainder of a history runs on copies and unpickled instances too.                     *)
+(*                                                                                         *)
+(* Values: small integers, and Ref (= 2 in the model configurations): a REFERENCE to a     *)
+(* fixed-entry dictionary that is reachable from its own contents -- the dictionary under *)
+(* test itself (pad["bytes"] = pad) or a companion that contains itself.  For the key     *)
+(* discipline a reference is a value like any other; for Copy/Pickle, d' = d then says    *)
+(* that the result holds a reference to a self-containing dictionary wherever the         *)
+(* original did (isomorphism: Python leaves == on cyclic dictionaries undefined).         *)
 EXTENDS FixedDictOps, TLC
 
 CONSTANTS Declared, Undeclared, Vals, MaxLen, MaxArg
